@@ -57,6 +57,9 @@ func visibleCallSites(p *Prog, fn *ssa.Function) ([]ssa.CallInstruction, bool) {
 	}
 	var out []ssa.CallInstruction
 	for _, e := range node.In {
+		if e.Caller != nil && e.Caller.Func != nil && e.Caller.Func.Synthetic != "" && len(e.Caller.In) == 0 {
+			continue // promoted-method / bound-method wrapper that nothing calls
+		}
 		if e.Site == nil || e.Caller == nil || e.Caller.Func == nil || !p.IsRepoFn(e.Caller.Func) {
 			return nil, false
 		}
